@@ -244,6 +244,9 @@ def call_cases(rng, tier):
     for _ in range(n):
         s = rng.choice(names)
         kinds = calls.SIGS[s][1]
+        if kinds == ["STAR"]:
+            out.append({"kind": "call", "sig": s, "args": calls.gen_star_args(rng, s)})
+            continue
         if s in calls.FRIENDLY and rng.random() < 0.7:
             args = [rng.choice(calls.FRIENDLY[s]) for _ in kinds]
         else:
@@ -251,7 +254,7 @@ def call_cases(rng, tier):
         out.append({"kind": "call", "sig": s, "args": args})
     if tier == "thorough":
         for s, (_, kinds, _) in calls.SIGS.items():
-            if len(kinds) == 2:
+            if len(kinds) == 2 and kinds != ["STAR"]:
                 for a in itertools.product(*[calls.POOLS[k] for k in kinds]):
                     out.append({"kind": "call", "sig": s, "args": list(a)})
     return out
